@@ -142,6 +142,33 @@ def run(rep, tier, seed):
                               f"{unit}: is_allowed_child({nm!r}) = {got}; occurs in some valid sequence: {nm in names}",
                               {"kind": "allowed", "unit": unit, "name": nm, "expected": nm in names})
     rep.notes["is_allowed_child_queries"] = nA
+    # the element NAMED metadata (validation looks away from its content; its rule lists no child): every name is refused
+    from metapype.eml.exceptions import ChildNotAllowedError
+    for pname in ("metadata",):
+        try:
+            mrule = rule.get_rule(pname)
+        except Exception:  # noqa: BLE001 - C10's business
+            continue
+        for kids in ([], ["zzAny"], ["title", "zzAny"]):
+            for cand in ("title", "zzForeign", "metadata", "unitList", "%s"):
+                par = Node(pname)
+                for k in kids:
+                    par.add_child(Node(k))
+                nA += 1
+                try:
+                    got = mrule.child_insert_index(par, Node(cand))
+                    rep.violation(f"{PID}:foreign-child-not-refused:metadataRule:parent-named-metadata", f"metadata children {kids} candidate {cand}: index {got} for a name the rule does not allow",
+                                  {"kind": "insert", "unit": "metadataRule", "element": "metadata", "children": kids, "candidate": cand})
+                except ChildNotAllowedError:
+                    pass
+                except Exception as e:  # noqa: BLE001
+                    rep.violation(f"{PID}:raised:{type(e).__name__}:metadataRule", repr(e), {"kind": "insert", "unit": "metadataRule", "children": kids, "candidate": cand})
+                try:
+                    if mrule.is_allowed_child(cand):
+                        rep.violation(f"{PID}:is_allowed_child:false-positive:metadataRule", f"is_allowed_child({cand!r}) on the rule of metadata", {"kind": "allowed", "unit": "metadataRule", "name": cand})
+                except Exception as e:  # noqa: BLE001
+                    rep.violation(f"{PID}:is_allowed_child:raised:{type(e).__name__}:metadataRule", repr(e), {"kind": "allowed", "unit": "metadataRule", "name": cand})
+                Node.store.clear()
 
     # code -> spec: long accepted sequences minus one child
     rnd = random.Random(seed)
